@@ -61,7 +61,11 @@ func (x *FnExec) call(fr *frame, n *node, in ssa.Instruction, c *ssa.CallCommon,
 
 	// effect guards on calls
 	x.callGuards(fr, n, in, c, key, args, reach)
-	x.ghostUpdates(fr, n, key, ord, "before", args, Val{}, reach)
+	calleeRef := ""
+	if key == "dynamic" {
+		calleeRef = x.scalar(x.value(fr, env, c.Value))
+	}
+	x.ghostUpdates(fr, n, key, ord, "before", args, Val{}, reach, calleeRef)
 
 	var res Val
 	var err error
@@ -102,7 +106,7 @@ func (x *FnExec) call(fr *frame, n *node, in ssa.Instruction, c *ssa.CallCommon,
 	if err != nil {
 		return Val{}, err
 	}
-	x.ghostUpdates(fr, n, key, ord, "after", args, res, reach)
+	x.ghostUpdates(fr, n, key, ord, "after", args, res, reach, calleeRef)
 	return res, nil
 }
 
@@ -350,11 +354,12 @@ func guardMatchesCallee(target, key string) bool {
 	return strings.HasSuffix(key, "."+target)
 }
 
-func (x *FnExec) ghostUpdates(fr *frame, n *node, key string, ord int, when string, args []Val, res Val, reach string) {
-	if fr.spec == nil {
+func (x *FnExec) ghostUpdates(fr *frame, n *node, key string, ord int, when string, args []Val, res Val, reach string, calleeRef string) {
+	// ghost updates belong to the function under verification and also apply inside closures executed in place
+	if x.topSpec == nil {
 		return
 	}
-	for _, gu := range fr.spec.Ghost {
+	for _, gu := range x.topSpec.Ghost {
 		if gu.When != when || !guardMatchesCallee(gu.Callee, key) || (gu.Ord != 0 && gu.Ord != ord) {
 			continue
 		}
@@ -366,6 +371,9 @@ func (x *FnExec) ghostUpdates(fr *frame, n *node, key string, ord int, when stri
 		extra := map[string]Val{}
 		for j, a := range args {
 			extra[fmt.Sprintf("arg%d", j)] = x.deAddr(a)
+		}
+		if calleeRef != "" {
+			extra["callee"] = Val{S: calleeRef, T: types.Typ[types.UnsafePointer]}
 		}
 		if len(res.Tuple) > 0 {
 			for i, r := range res.Tuple {
@@ -389,6 +397,7 @@ func (x *FnExec) ghostUpdates(fr *frame, n *node, key string, ord int, when stri
 		v, _ = x.coerce(v, cur)
 		key := "$ghost:" + gv.Name
 		n.st.heap[key] = x.q.define("ghost_"+gv.Name, cur.Sort, v.S)
+		_ = reach // the state is per-path: the update is only visible on paths through this call
 	}
 }
 
